@@ -18,6 +18,10 @@ and returns when the fake has acknowledged it (or has exited and is a zombie), s
 contents and the program's life change ONLY inside engine sleeps and a run is a deterministic
 function of the schedule.  Mode "async": nothing is replaced except the sleep length.
 
+Byte-unit schedules (`case["unit"] = "bytes"`, CP2K only): the schedule amounts are cumulative byte
+counts of <project>-pos-1.xyz / -vel-1.xyz instead of half frames, so a poll can see either file
+ending at any byte (cp2k_frame_len / cp2k_where / frames_in below); everything else is unchanged.
+
 Launcher scenarios (`case["launcher"]` = "fg" | "bg"): the engine is configured with an sh
 wrapper script (written per case, LAUNCHER_SH) that runs the fake program as its child and
 waits for it; the hand-shake then treats the launcher's exit as "the program has ended" (that
@@ -311,6 +315,56 @@ def start_vel(case):
     return neg(case["vel"]) if flip else [list(v) for v in case["vel"]]
 
 
+# Byte layout of the frames fake_cp2k.py writes to <project>-pos-1.xyz / -vel-1.xyz (the CP2K
+# text layout): restated here, independently of the fake program, so that the check can place a
+# flush at ANY byte of a frame; the fake leaves the lengths it really wrote in <ctl dir>/layout
+# and propagate_once compares (obs["layout_ok"]).
+CP2K_COUNT_LINE = 8 + 1                                  # f"{natoms:8d}\n"
+CP2K_COMMENT_LINE = 5 + 8 + 9 + 12 + 6 + 20 + 1          # f" i = {step:8d}, time = {t:12.3f}, E = {e:20.10f}\n"
+CP2K_ATOM_LINE = 3 + 1 + 3 * 19 + 2 + 1                  # f"{name:>3s} " + " ".join(f"{x:19.10f}" ...) + "\n"
+CP2K_NUMBER = 19                                         # width of one number; 10 decimals
+
+
+def cp2k_frame_len(natoms):
+    return CP2K_COUNT_LINE + CP2K_COMMENT_LINE + natoms * CP2K_ATOM_LINE
+
+
+def cp2k_where(natoms, off):
+    """Which part of a frame the byte offset `off` (0 <= off <= frame length; the first `off` bytes of
+    the frame are on disk) falls into - input-distribution label of the byte-cut scenarios."""
+    flen = cp2k_frame_len(natoms)
+    if off <= 0 or off >= flen:
+        return "frame-boundary"
+    if off < CP2K_COUNT_LINE:
+        return "in-count-line"
+    if off == CP2K_COUNT_LINE:
+        return "after-count-line"
+    head = CP2K_COUNT_LINE + CP2K_COMMENT_LINE
+    if off < head:
+        return "in-comment-line"
+    a, r = divmod(off - head, CP2K_ATOM_LINE)
+    if r == 0:
+        return "between-lines"
+    last = a == natoms - 1
+    if r == CP2K_ATOM_LINE - 1:
+        return "last-line-complete-but-newline" if last else "atom-line-complete-but-newline"
+    if not last:
+        return "in-atom-line"
+    # last atom line: 4 + 19 + 1 + 19 + 1 = start of the field of the last number
+    if r <= 4 + 2 * (CP2K_NUMBER + 1):
+        return "in-last-line-before-last-number"
+    return "in-last-number-of-last-line"
+
+
+def frames_in(case, amount):
+    """Number of COMPLETE frames in an output stream that holds `amount` (a schedule amount: half
+    frames, or bytes when case["unit"] == "bytes").  A text frame is complete only when the
+    newline that terminates its last line is on disk."""
+    if case.get("unit") == "bytes":
+        return int(amount) // cp2k_frame_len(len(case["pos"]))
+    return int(amount) // 2
+
+
 def _final_amounts(case):
     """Per output stream: number of complete frames in the file when the program has ended."""
     full = case["maxlen"] + 1 if case.get("frames") is None else case["frames"]
@@ -321,7 +375,7 @@ def _final_amounts(case):
     if not sched:
         return [0] * nstream
     last = list(sched[-1]) + [sched[-1][0]] * nstream
-    return [min(full, int(last[i]) // 2) for i in range(nstream)]
+    return [min(full, frames_in(case, last[i])) for i in range(nstream)]
 
 
 def n_written(case):
@@ -639,7 +693,7 @@ def write_ctl(case, wd, tag, **over):
         "frames": case.get("frames"),
         "exit_code": case.get("exit_code", 0), "exit_signal": case.get("exit_signal"),
         "box_rate": case.get("box_rate"), "accel": case.get("accel"),
-        "cut": case.get("cut", "line"), "shuffle_ids": case.get("shuffle_ids", False),
+        "cut": case.get("cut", "line"), "unit": case.get("unit", "half"), "shuffle_ids": case.get("shuffle_ids", False),
         "delay": case.get("delay", 0.003), "die_before_output": case.get("die_before_output", False),
         "write_rest": case.get("write_rest", True),
     }
@@ -780,6 +834,17 @@ def propagate_once(engine, case, wd, conf, idx, vel_rev_in, reverse, tag, ctl_ov
             except OSError:
                 pass
     obs["sigterm"] = os.path.exists(os.path.join(ctl_dir, "sigterm"))
+    if case["engine"] == "cp2k" and case.get("unit") == "bytes":
+        # the byte positions of the schedule were computed from the layout restated above: it must
+        # be the layout the program really wrote
+        try:
+            with open(os.path.join(ctl_dir, "layout")) as f:
+                lay = json.load(f)
+            flen = cp2k_frame_len(len(case["pos"]))
+            obs["layout_ok"] = all(x == flen for key in ("pos", "vel") for x in lay[key])
+            obs["layout"] = sorted({x for key in ("pos", "vel") for x in lay[key]})
+        except (OSError, ValueError, KeyError):
+            obs["layout_ok"], obs["layout"] = None, None     # the program never got that far
     obs["nsleeps"] = sync.n if sync else None
     # reap whatever is left so that later propagations start clean
     for pid, _ in kids:
@@ -880,7 +945,9 @@ def visible_reads(case):
     if eng == "lammps":
         return [f"{min(int(e[0]) // 2, n)}:1" for e in sched] + [f"{fin[0]}:0"]
     if eng == "cp2k":
-        return [f"{min(int(e[0]) // 2, n)}:{min(int(e[1]) // 2, n)}:1" for e in sched] + [f"{fin[0]}:{fin[1]}:0"]
+        # what a poll can use of a file = its complete frames (frames_in: in the byte-unit scenarios a
+        # frame counts only when the newline ending its last line has been flushed)
+        return [f"{min(frames_in(case, e[0]), n)}:{min(frames_in(case, e[1]), n)}:1" for e in sched] + [f"{fin[0]}:{fin[1]}:0"]
     raise ValueError(eng)
 
 
